@@ -12,7 +12,7 @@ Definition summ (src : srcp) (c : cfg) (sched : list step) : gs := gs_outs gs0 (
 
 Definition plain_cfg : cfg :=
   {| c_oneway := false; c_data := false; c_trailers := false; c_route := RouteForward; c_nhosts := 2%nat; c_retry_on := false;
-     c_num_retries := 0%nat; c_codes := []; c_try_timeout := false; c_max_retries := 0; c_recv := []; c_send := []; c_pool := []; c_delay := [] |}.
+     c_num_retries := 0%nat; c_codes := []; c_try_timeout := false; c_max_retries := 0; c_recv := []; c_send := []; c_pool := []; c_delay := []; c_snd_err_hdr := false; c_snd_err_data := false; c_snd_err_trl := false |}.
 
 (* the worker runs whenever it can, every sleep ends: 120 rounds of [Worker; Worker; Worker; wake] *)
 Definition drive : list step := concat (repeat [Worker; Worker; Worker; Env EvWake] 120).
